@@ -89,7 +89,7 @@ REGISTRY["C08"] = dict(
 
 REGISTRY["C09"] = dict(
     modules=["harness.c09_scores"], e2=True,
-    technique="CrossHair symbolic query codes over the real scoring/matcher stack (score of op(a,b) vs composition of clause scores, layout independence) + z3 reals through the real bm25()",
+    technique="CrossHair symbolic query codes over the real scoring/matcher stack (score of op(a,b) vs composition of clause scores, layout and collector independence, ten weighting models incl. Multi/Reverse/Function weighting and a final() hook) + z3 reals through the real bm25()",
     text="For every generated query the score of each hit must equal the documented combination of the clause scores on the same "
          "searcher and be identical on one- and two-segment layouts; the real bm25() function object is evaluated on z3 Reals and "
          "shown equal to the textbook formula, monotone and positive over the whole documented domain (negations unsat).",
@@ -103,7 +103,7 @@ REGISTRY["C11"] = dict(
 
 REGISTRY["C06"] = dict(
     modules=["harness.c06_layout", "harness.c06_kernels"],
-    technique="CrossHair symbolic commit-cut masks and merge-pattern codes over the real writer/merge/codec stack; canonical dump vs the fewest-commit optimised build",
+    technique="CrossHair symbolic commit-cut masks and merge-pattern codes over the real writer/merge/codec stack; canonical dump vs the fewest-commit optimised build; CrossHair with symbolic segment sizes and document numbers over the real global<->local document number arithmetic",
     text="The same document operations are cut into commits by every (symbolic) cut mask under eight merge patterns and three codec block "
          "limits; stored fields, lexicon, postings with positions/characters/weights, lengths, vectors, columns, sort/range/phrase/nested "
          "results must equal the baseline, also after a final optimize; without deletions also statistics and scores.",
@@ -142,10 +142,12 @@ REGISTRY["C10"] = dict(
     note=_BOUNDED)
 REGISTRY["C12"] = dict(
     modules=["harness.c12_quality"], e2=True,
-    technique="CrossHair symbolic query/threshold codes over real matchers and scorers (bounds at every position, skip_to_quality/replace never lose an entry above the threshold) + z3 reals through the real bm25()",
+    technique="CrossHair symbolic query/threshold codes over real matchers and scorers (bounds at every position, skip_to_quality/replace never lose an entry above the threshold) + z3 reals through the real bm25(), the real scorer objects and the real composite matcher classes + pybmc (Int theory) on length_to_byte",
     text="For matchers compiled from real queries on real multi-block segments with the shipped scorers: block_quality >= current score, "
          "max_quality >= every remaining score, skip_to_quality(q)/replace(q) keep every entry scoring above q for q from a symbolic "
-         "threshold code; the real bm25() on z3 Reals is bounded by its value at (max weight, min length) over the documented domain.",
+         "threshold code; the real bm25() on z3 Reals is bounded by its value at (max weight, min length) over the documented domain; the scorer objects the "
+         "real BM25F/TF_IDF/Frequency classes build, and the real binary/wrapper matcher classes over leaves with z3-real scores and bounds, satisfy "
+         "score <= block_quality <= max_quality (negations unsat); length_to_byte/byte_to_length are monotone for every length (pybmc, integers).",
     note=_BOUNDED)
 
 REGISTRY["C14"] = dict(
